@@ -703,9 +703,9 @@ def run(ctx):
     for widths, label in tables:
         cases = []
         cases += gen_exhaustive_edges(widths) if (label == "corpus" or thorough or rng.random() < 0.3) else []
-        cases += gen_record_cases(rng, widths, (60 if label == "corpus" else 25) if thorough else (28 if label == "corpus" else 10), not thorough)
+        cases += gen_record_cases(rng, widths, (60 if label == "corpus" else 25) if thorough else (40 if label == "corpus" else 14), not thorough)
         cases += gen_pixel_cases(rng, widths, 8 if thorough else 3)
-        cases += gen_cli_cases(rng, widths, (6 if thorough else 2) if label == "corpus" else (2 if thorough else (1 if rng.random() < 0.5 else 0)))
+        cases += gen_cli_cases(rng, widths, (8 if thorough else 4) if label == "corpus" else (2 if thorough else 1))
         per_table.setdefault(canon_w(widths), [widths, []])[1].extend(cases)
     for case in D2_CASES + CLI_CORPUS:
         per_table.setdefault(canon_w(case["widths"]), [case["widths"], []])[1].append(case)
